@@ -5,7 +5,8 @@ The reference is built ONLY from the scenario (parameters, prices, grid start/en
 not touch an eaopack object.  It is formulated over PHYSICAL quantities (the Lean twin of this file is
 `EAO/Spec/Textbook.lean`):
 
-  grid        points p_0 < ... < p_T from pandas.date_range; dt_t = (p_{t+1}-p_t)/unit;
+  grid        points p_0 < ... < p_T from pandas.date_range; dt_t = (p_{t+1}-p_t)/unit, the time between the two INSTANTS (a
+              daily step of a zone with daylight saving lasts 23 or 25 hours when the clocks change; stream `dst`);
               df_t = (1+wacc)^(-(elapsed days to the END of step t)/365), wacc per asset
   window      an asset lives on the steps t with  start <= p_t < end  (defaults: the horizon)
   contract    net volume q_t in [min_t, max_t]*dt_t, flow +q_t into its node,
@@ -67,7 +68,7 @@ THEOREMS_C02 = [
     ('EAO.Properties.C02', 'EAO.C02.simple_data', 'inversion of buildSimpleContract: sampled price, spread, rates lo/hi that make_vector returns, volume limits = rate*dt, one- or two-variable problem'),
     ('EAO.Properties.C02', 'EAO.C02.Ex.ec_nonneg_needed', 'witness that the two-variable contract needs ec >= 0: spread -1 lets the model earn 2 with zero net flow, the textbook contract earns 0'),
 ]
-COMPONENTS_C02 = ['oracle textbook: independent scipy/HiGHS LP over physical quantities (transports as lines with a forward and a backward part) vs eaopack optimum (2e-6 rel.) and feasibility of eaopack\'s dispatch in it (1e-6); repeated set-up on the same objects; violations explained by a finding the reference can reproduce (F-19c, F-02c) carry that finding\'s fact `kind`',
+COMPONENTS_C02 = ['oracle textbook: independent scipy/HiGHS LP over physical quantities (transports as lines with a forward and a backward part; step lengths = time between the instants of consecutive grid points) vs eaopack optimum (2e-6 rel.) and feasibility of eaopack\'s dispatch in it (1e-6); repeated set-up on the same objects; violations explained by a finding the reference can reproduce (F-19c, F-02c) carry that finding\'s fact `kind`',
                   'builder correspondences: harness/comp/contract.py, harness/comp/storage.py']
 
 
@@ -606,6 +607,165 @@ def gen_reversed_case(rnd):
     return {'grid': g, 'nodes': [n0, n1], 'prices': prices, 'assets': assets, 'probe': {'direction': direction, 'efficiency': eff}}
 
 
+# ------------------------------------------------------------------------------------------- stream `dst`
+# grids whose steps are whole calendar days of a zone with daylight saving: pandas steps such a grid from local wall-clock time
+# to the same wall-clock time n days later, so the step that contains a clock change is shorter or longer than n x 24 h.
+# The reference (class Grid) takes every step length from the INSTANTS of the two grid points.
+DST_ZONES = ['CET', 'Europe/Berlin', 'Europe/London', 'Europe/Lisbon', 'US/Eastern', 'America/Chicago', 'US/Pacific',
+             'America/St_Johns', 'Australia/Sydney', 'Australia/Lord_Howe', 'Pacific/Auckland', 'Africa/Casablanca']
+PLAIN_ZONES = ['UTC', 'Asia/Tokyo', None]
+# (frequency, days per step, weight); 'W' is replaced by the weekly frequency anchored at the weekday of the start
+DAY_FREQS = [('d', 1, 6), ('2d', 2, 3), ('3d', 3, 2), ('7d', 7, 3), ('W', 7, 2), ('14d', 14, 1), ('30d', 30, 1), ('1D', 1, 1)]
+_CHANGES = {}
+
+
+def clock_changes(tz, first='2021-01-01', last='2023-12-31'):
+    """local dates around which the clocks of the zone change: [(date, seconds gained (+: longer day))], found by comparing the
+    instants of consecutive local noons (a local noon always exists)"""
+    if tz not in _CHANGES:
+        noons = pd.date_range(pd.Timestamp(first + ' 12:00'), pd.Timestamp(last + ' 12:00'), freq='D').tz_localize(tz)
+        sec = np.diff(noons.asi8) // 10 ** 9
+        _CHANGES[tz] = [(noons[i + 1].tz_localize(None).normalize(), int(sec[i] - 86400)) for i in np.nonzero(sec != 86400)[0]]
+    return _CHANGES[tz]
+
+
+def gen_day_grid(rnd, tmin=2, tmax=9):
+    """a grid of whole-day steps ('d', '2d', '3d', '7d', weekly, '14d', '30d') in main time unit h / d / min; in 90 % of the
+    draws in a zone with daylight saving and placed so that a clock change (spring or autumn, either hemisphere, 30-minute and
+    Ramadan changes included) falls into a randomly chosen step of the horizon (first and last included), sometimes two changes;
+    start at local midnight or at another hour of the day that exists on every day.  Controls: zones without daylight saving,
+    no zone, horizon away from the change."""
+    from .. import gen
+    for _ in range(20):
+        freq, mult, _w = rnd.choices(DAY_FREQS, weights=[w for _, _, w in DAY_FREQS])[0]
+        unit = rnd.choice(['h', 'h', 'h', 'd', 'd', 'min'])
+        dst = rnd.random() < 0.9
+        tz = rnd.choice(DST_ZONES) if dst else rnd.choice(PLAIN_ZONES)
+        T = rnd.randint(tmin, tmax)
+        if mult >= 14:
+            T = rnd.randint(tmin, max(tmin, tmax - 2)) + (rnd.choice([0, 0, 8]) if mult == 14 else 0)
+        hour = rnd.choice([0, 0, 0, 0, 6, 12, 18, 22])
+        changes = clock_changes(tz) if (dst and tz is not None) else []
+        if changes:
+            c, _gain = rnd.choice(changes[:-1])
+            j = rnd.randint(0, T - 1)               # the step that shall contain the change
+            r = rnd.randint(0, mult - 1)            # the day of that step
+            start = c - pd.Timedelta(days=j * mult + r)
+            if rnd.random() < 0.06:
+                start = start + pd.Timedelta(days=(T + 3) * mult)      # control: the horizon starts after the change
+        else:
+            start = pd.Timestamp('2021-01-01') + pd.Timedelta(days=rnd.randint(0, 400))
+        start = start.normalize() + pd.Timedelta(hours=hour)
+        if freq == 'W':
+            freq = 'W-' + start.day_name()[:3].upper()
+        end = start + pd.Timedelta(days=T * mult)
+        g = {'start': gen.iso(start), 'end': gen.iso(end), 'freq': freq, 'unit': unit, 'tz': tz, 'T_nominal': T, 'step_s': mult * 86400}
+        try:
+            gen.fix_grid(g)
+        except Exception:       # a local time that does not exist / is ambiguous: draw again
+            continue
+        if g['T_nominal'] != T:
+            continue
+        return g
+    raise RuntimeError('no grid drawn')
+
+
+def gen_dst_case(rnd):
+    """stream `dst`: a portfolio of the asset classes of the property on a grid of `gen_day_grid`, with the options that depend on
+    the LENGTH of a step drawn densely: volume limits rate x step length that bind (small rates against a deep market, sizes of
+    storages and take volumes of the order of a step's volume), takes over periods that cut the horizon (prorated), holding
+    costs, inflow, discount rates"""
+    from .. import gen
+    g = gen_day_grid(rnd)
+    T = g['T_nominal']
+    unit_h = {'h': 1.0, 'd': 24.0, 'min': 1.0 / 60.0}[g['unit']]
+    per_step = g['step_s'] / 3600.0 / unit_h          # nominal step length in main time units
+    prices = {}
+    nn = rnd.choice([1, 1, 2, 2, 3])
+    nodes = ['N%d' % i for i in range(1, nn + 1)]
+    assets = []
+    for n in nodes:
+        if rnd.random() < 0.92:
+            cap = rnd.choice([40.0, 40.0, 40.0, 12.0, gen.q8(rnd, 2, 8)])
+            a = {'type': 'SimpleContract', 'name': 'mkt%d' % (len(assets) + 1), 'nodes': [n],
+                 'args': {'min_cap': -cap, 'max_cap': cap, 'price': gen.price_key(rnd, prices, T)}}
+            if rnd.random() < 0.3:
+                a['args']['extra_costs'] = gen.q8(rnd, 0.125, 1)
+            assets.append(a)
+
+    def rescale_take(args, by):
+        for o in ('max_take', 'min_take'):
+            if o in args:
+                args[o]['values'] = [v * by for v in args[o]['values']]
+
+    for _ in range(rnd.randint(1, 4)):
+        kind = rnd.choice(KINDS)
+        node = rnd.choice(nodes)
+        two = rnd.sample(nodes, 2) if nn >= 2 else None
+        name = '%s%d' % ({'simple': 'sc', 'contract': 'ct', 'transport': 'tr', 'ext_transport': 'xt', 'storage': 'st', 'storage2': 'st', 'multi': 'mc'}[kind], len(assets) + 1)
+        if kind == 'simple':
+            a = gen.gen_simple_contract(rnd, g, prices, T, name, node)
+        elif kind == 'contract':
+            a = gen.gen_contract(rnd, g, prices, T, name, node)
+        elif kind in ('transport', 'ext_transport') and two:
+            a = gen.gen_transport(rnd, g, prices, T, name, two[0], two[1], ext=(kind == 'ext_transport'))
+        elif kind in ('storage', 'storage2'):
+            a = gen.gen_storage(rnd, g, prices, T, name, two if (kind == 'storage2' and two) else [node], False, False)
+        elif kind == 'multi' and two:
+            a = gen.gen_multi(rnd, g, prices, T, name, two)
+        else:
+            continue
+        args = a['args']
+        # quantities measured in volumes (takes, sizes, levels) brought to the order of a step's volume
+        if rnd.random() < 0.75:
+            by = per_step * rnd.choice([0.25, 0.5, 1.0, 1.0, 2.0])
+            rescale_take(args, by * rnd.choice([1, 1, 2, T]) / 8.0)
+            if a['type'] == 'Storage':
+                for o in ('size', 'start_level', 'end_level'):
+                    if o in args:
+                        args[o] = args[o] * by
+        if a['type'] == 'Storage':
+            if 'cost_store' not in args and rnd.random() < 0.5:
+                args['cost_store'] = gen.q8(rnd, 0.125, 0.5) / max(1.0, per_step / 4)
+            if 'inflow' not in args and rnd.random() < 0.3:
+                args['inflow'] = gen.q8(rnd, 0, 0.5)
+            if 'eff_in' not in args and rnd.random() < 0.3:
+                args['eff_in'] = rnd.choice([0.5, 0.75, 0.875, 0.9])
+        if rnd.random() < 0.35:
+            gen.put_window(args, gen.window(rnd, g))
+        if rnd.random() < 0.55:
+            args['wacc'] = rnd.choice([0.05, 0.07, 0.1, 0.5, 1.0, 3.0])
+        assets.append(a)
+    if rnd.random() < 0.5:
+        for a in assets:
+            if a['name'].startswith('mkt') and rnd.random() < 0.7:
+                a['args']['wacc'] = rnd.choice([0.05, 0.1, 0.5])
+    if not assets:
+        assets.append({'type': 'SimpleContract', 'name': 'mkt1', 'nodes': [nodes[0]], 'args': {'min_cap': -40.0, 'max_cap': 40.0, 'price': gen.price_key(rnd, prices, T)}})
+    scn = {'grid': g, 'nodes': nodes, 'prices': prices, 'assets': assets}
+    forward_or_lossless(scn)
+    return scn
+
+
+def day_grid_features(scn, G):
+    """what the grid of a `dst` case exercises: lengths of its steps relative to the nominal one"""
+    g = scn['grid']
+    if not g.get('step_s') or G.T == 0:
+        return []
+    nominal = pd.Timedelta(seconds=g['step_s']) / G.unit
+    d = np.round((G.dt - nominal) * (G.unit / pd.Timedelta(minutes=1)))
+    f = []
+    if (d < 0).any():
+        f.append('day-grid:short-step')
+    if (d > 0).any():
+        f.append('day-grid:long-step')
+    if not f:
+        f.append('day-grid:uniform')
+    if (d != 0).sum() > 1:
+        f.append('day-grid:two-changes')
+    return f
+
+
 def features_of(scn):
     f = []
     for a in scn['assets']:
@@ -655,7 +815,8 @@ def run_case(case, drv=None):
         r2 = _run_case(case, follow)
         r2.pop('_hits', None)
         evaluated += 1
-        if r2['violations']:
+        if r2['violations'] or any(f.startswith(('reference-refuses', 'unsupported:')) for f in r2['features']):
+            # (a reference that refuses the case when it follows the finding has compared nothing: that explains no violation)
             continue
         info = {'tz': case['grid'].get('tz'), 'transports': ', '.join(hits.get('F-02c') or []),
                 'efficiency': ', '.join('%g' % e for e in hits.get('F-02c_eff', []))}
@@ -679,7 +840,53 @@ def run_case(case, drv=None):
     return r
 
 
+def step_length_probe(case):
+    """the simplest portfolio on the grid of the case whose optimum shows every step length: a deep market (price 8, 10, 12, 8, ...
+    per unit, wacc 10 %) and a source that delivers for free at a rate of at most 1.5 - the optimum sells 1.5 x step length in
+    every step, discounted to the end of the step"""
+    g = copy.deepcopy(case['grid'])
+    T = Grid(g).T
+    return {'grid': g, 'nodes': ['N1'], 'prices': {'pp': [8.0 + 2.0 * (t % 3) for t in range(T)]},
+            'assets': [{'type': 'SimpleContract', 'name': 'mkt', 'nodes': ['N1'], 'args': {'min_cap': -40.0, 'max_cap': 40.0, 'price': 'pp', 'wacc': 0.1}},
+                       {'type': 'SimpleContract', 'name': 'src', 'nodes': ['N1'], 'args': {'min_cap': 0.0, 'max_cap': 1.5}}]}
+
+
 def _run_case(case, follow):
+    """`_run_case_1` plus the treatment of step lengths: when eaopack's dt is not the time between the instants of its grid
+    points, the violations of the case (optimum, dispatch) carry that fact; when the case itself shows none (nothing binds in the
+    step concerned), the statement of the property is evaluated on the `step_length_probe` of the same grid"""
+    r = _run_case_1(case, follow)
+    d = r.get('observed', {}).get('step_length_difference')
+    if d:
+        note = 'step %d (%s .. %s) lasts %.9g main time units, eaopack\'s grid says %.9g' % (
+            d['step'], d['point'], d['next_point'], d['dt_from_instants'], d['dt_eaopack'])
+        if not r['violations']:
+            g = case['grid']
+            try:
+                probe = step_length_probe(case)
+                rp = _run_case_1(probe, follow)
+                r['evaluated'] = r.get('evaluated', 1) + 1
+                r['features'].append('step-length-probe')
+                for v in rp['violations']:
+                    v['detail'] = ('grid %s .. %s, freq %s, main time unit %s, zone %s; market (price %s, +-40, wacc 0.1) and a free source of rate <= 1.5 at one node: '
+                                   % (g['start'], g['end'], g['freq'], g.get('unit', 'h'), g.get('tz'), probe['prices']['pp'][:4])) + v['detail']
+                    v['facts']['probe_of_step_lengths'] = True
+                    v['facts']['probe_case'] = probe
+                    r['violations'].append(v)
+                r['observed']['step_length_probe'] = {k: rp['observed'].get(k) for k in ('eao_value', 'textbook_value_plus_constant')}
+            except Exception as e:
+                r['features'].append('step-length-probe-error:' + type(e).__name__)
+        if r['violations']:
+            for v in r['violations']:
+                v['detail'] += ' [' + note + ']'
+                v['facts']['step_lengths_differ'] = True
+        else:
+            r['violations'].append({'oracle': 'textbook', 'detail': 'step lengths of eaopack\'s grid are not the time between its points: ' + note,
+                                    'facts': {'what': 'step_length', 'kinds': kinds_of(case), 'step_lengths_differ': True}})
+    return r
+
+
+def _run_case_1(case, follow):
     from .. import pf, impl
     scn = case
     r = {'evaluated': 1, 'nontrivial': False, 'features': features_of(scn), 'disagreements': [], 'violations': [], 'observed': {}}
@@ -719,10 +926,19 @@ def _run_case(case, follow):
             viol('value', 'eaopack cannot set up a portfolio (%s: %s) for which the textbook model has the optimum %.9g' % (
                 type(e).__name__, str(e)[:120], ref['value'] + K), error=impl.err_class(e))
         return r
-    if rec['tg'].T != G.T or np.abs(rec['tg'].dt - G.dt).max(initial=0.0) > 1e-12:
-        viol('value', 'grid of eaopack has %d steps / dt %s, the reference computes %d / %s' % (
-            rec['tg'].T, list(rec['tg'].dt[:4]), G.T, list(G.dt[:4])))
+    feats.extend(day_grid_features(scn, G))
+    if rec['tg'].T != G.T:
+        viol('value', 'grid of eaopack has %d steps, the reference computes %d' % (rec['tg'].T, G.T))
         return r
+    # step lengths: the reference takes them from the instants of the grid points.  A difference is not a violation by itself
+    # (the property speaks about optimum and dispatch): it is carried as a fact of the violations it leads to, and reported on
+    # its own only if the case shows no other violation
+    dt_diff = None
+    if np.abs(np.asarray(rec['tg'].dt, dtype=float) - G.dt).max(initial=0.0) > 1e-12:
+        k = int(np.argmax(np.abs(np.asarray(rec['tg'].dt, dtype=float) - G.dt)))
+        dt_diff = {'step': k, 'point': str(G.pts[k]), 'next_point': str(G.pts[k + 1]), 'dt_eaopack': float(rec['tg'].dt[k]), 'dt_from_instants': float(G.dt[k])}
+        feats.append('step-lengths-differ')
+        r['observed']['step_length_difference'] = dt_diff
     # ---- explicit hypotheses of the refinement theorems, evaluated on this case (EAO.C02.contract_refines_two,
     #      take_rows_spec: extra costs >= 0, discount factors >= 0, pairwise different steps of the grid; transport_refines /
     #      ext_transport_refines tie the code to the SIGNED textbook transport, which is the physical line only if the
